@@ -2,6 +2,8 @@ import EncodingRs.Lemmas.OneShot
 import EncodingRs.Lemmas.ConformEncRepl
 import EncodingRs.Thm.C04
 import EncodingRs.Thm.C20
+import EncodingRs.Thm.C03
+import EncodingRs.Lemmas.OneShotCap
 /-! Lemmas for C11, `Encoding::encode`: the with-replacement wrapper `Model.encRepl` against the
 chunk-free reference run for EVERY stop policy, capacity and result (`InputEmpty` or `OutputFull`),
 from any state (the existing `encRepl_html_of` covers the never-stop policy and `InputEmpty` only);
@@ -9,6 +11,7 @@ the loop of `encode`; the validated ASCII prefix. -/
 namespace EncodingRs.Lemmas.OneShotEnc
 open EncodingRs EncodingRs.Model EncodingRs.Model.OneShot EncodingRs.Lemmas.EncCore
 open EncodingRs.Lemmas.ConformEnc (itemsFn itemsFn_split itemsFn_nil widthSum)
+open EncodingRs.Lemmas.OneShot (passPred passPred_ascii)
 
 /-! ### events of the reference run as bytes with numeric character references, and the flag -/
 
@@ -235,5 +238,156 @@ theorem encRepl_sound (E : EFam) (L : ELaws E) (hpend : ∀ s, E.hasPending s = 
     · obtain ⟨i1, i2, i3, i4⟩ := encRepl_go_sound E L hpend utf16 src _ fuel s budgets 0 0 [] false [] r h
       simp only [List.drop_zero, List.nil_append, Bool.false_or] at i2 i3
       exact ⟨i1, i2, i3, i4⟩
+
+
+/-! ### the loop of `Encoding::encode` -/
+
+/-- **the loop of `encode`**: for every stop policy of every inner call, every capacity / slack and
+every number of `OutputFull` / `reserve_exact` rounds, what it appends is the reference run (with
+numeric character references) over the characters of the `&str` slice it was given, and its flag is
+"the reference run reports an unmappable character" -/
+theorem encodeLoop_sound (v : Gen.Variant) (ifuel : Nat) :
+    ∀ (fuel : Nat) (s : (efamOfVariant v).σ) (src : List Nat) (cap len : Nat) (slack : List Nat)
+      (bs : List (List Budget)) (o : List Nat) (e : Bool),
+      encodeLoop v ifuel fuel s src cap len slack bs = .ok (o, e) →
+      o = htmlE (eref (efamOfVariant v) s (chars false src)) ∧
+      e = anyUnmap (eref (efamOfVariant v) s (chars false src)) := by
+  intro fuel
+  induction fuel with
+  | zero => intro s src cap len slack bs o e h; simp [encodeLoop] at h
+  | succ fuel ih =>
+    intro s src cap len slack bs o e h
+    rw [encodeLoop] at h
+    cases hrl : encRepl (efamOfVariant v) (canEncodeEverything v) Gen.ncrExtra false true (cap - len) ifuel s src
+        (bs.headD []) with
+    | none => rw [hrl] at h; cases h
+    | some t =>
+      rw [hrl] at h
+      simp only at h
+      obtain ⟨_, i2, i3, i4⟩ := encRepl_sound (efamOfVariant v) (Thm.C04.variant_elaws v)
+        (Thm.C03.eof_empty_of_not_pending v) _ _ false _ ifuel s src _ t hrl
+      cases hres : t.res with
+      | inputEmpty =>
+        simp only [hres, Outcome.ok.injEq, Prod.mk.injEq] at h
+        obtain ⟨h1, h2⟩ := h
+        rw [i4 hres] at i2 i3
+        simp only [htmlE, anyUnmap, List.append_nil, Bool.or_false] at i2 i3
+        exact ⟨by rw [← h1, i2], by rw [← h2, i3]⟩
+      | unmappable c => simp only [hres] at h; cases h
+      | outputFull =>
+        simp only [hres] at h
+        cases hq : Gen.MaxLen.U.addO cap (encMaxIfNoUnmappables false v (src.length - t.read)) with
+        | none => rw [hq] at h; cases h
+        | some sum =>
+          rw [hq] at h
+          simp only at h
+          split at h
+          · cases h
+          · cases hrec : encodeLoop v ifuel fuel t.st (src.drop t.read)
+                (max cap (nextPowerOfTwoU sum) + slack.headD 0) (len + t.out.length) slack.tail bs.tail with
+            | panic => rw [hrec] at h; cases h
+            | diverges => rw [hrec] at h; cases h
+            | ok q =>
+              obtain ⟨o', e'⟩ := q
+              rw [hrec] at h
+              simp only [Outcome.ok.injEq, Prod.mk.injEq] at h
+              obtain ⟨h1, h2⟩ := h
+              obtain ⟨j1, j2⟩ := ih _ _ _ _ _ _ o' e' hrec
+              exact ⟨by rw [← h1, i2, j1], by rw [← h2, i3, j2]⟩
+
+/-! ### the validated prefix: ASCII (ISO-2022-JP: ASCII other than 0E / 0F / 1B) passes the encoder -/
+
+/-- from the initial state such a character is written as the same byte and leaves the state alone -/
+theorem enc_pass (v : Gen.Variant) (c : Nat) (h : passPred v c = true) :
+    (efamOfVariant v).step (efamOfVariant v).init c = ⟨(efamOfVariant v).init, [c], none, false⟩ := by
+  have hc : c < 0x80 := passPred_ascii v c h
+  have ofAscii : ∀ E : EFam, Thm.C20.AsciiEnc E → E.step E.init c = ⟨E.init, [c], none, false⟩ := by
+    intro E hE
+    obtain ⟨h1, h2, h3, h4⟩ := hE c hc
+    cases hs : E.step E.init c with
+    | mk st out um ur =>
+      rw [hs] at h1 h2 h3 h4
+      simp only at h1 h2 h3 h4
+      rw [h1, h2, h3, h4]
+  cases v with
+  | iso2022Jp =>
+    have hh : c < 0x80 ∧ c ≠ 0x0E ∧ c ≠ 0x0F ∧ c ≠ 0x1B := by simpa [passPred] using h
+    show isoEncStep .ascii c = _
+    unfold isoEncStep
+    simp only
+    rw [if_neg (by omega), if_pos (by omega)]
+    rfl
+  | replacement => exact ofAscii _ (Thm.C20.asciiEnc_of_variant .utf8 (by decide))
+  | utf16Be => exact ofAscii _ (Thm.C20.asciiEnc_of_variant .utf8 (by decide))
+  | utf16Le => exact ofAscii _ (Thm.C20.asciiEnc_of_variant .utf8 (by decide))
+  | singleByte t a b d => exact ofAscii _ (Thm.C20.asciiEnc_of_variant _ (by simp))
+  | utf8 => exact ofAscii _ (Thm.C20.asciiEnc_of_variant _ (by decide))
+  | gbk => exact ofAscii _ (Thm.C20.asciiEnc_of_variant _ (by decide))
+  | gb18030 => exact ofAscii _ (Thm.C20.asciiEnc_of_variant _ (by decide))
+  | big5 => exact ofAscii _ (Thm.C20.asciiEnc_of_variant _ (by decide))
+  | eucJp => exact ofAscii _ (Thm.C20.asciiEnc_of_variant _ (by decide))
+  | shiftJis => exact ofAscii _ (Thm.C20.asciiEnc_of_variant _ (by decide))
+  | eucKr => exact ofAscii _ (Thm.C20.asciiEnc_of_variant _ (by decide))
+  | userDefined => exact ofAscii _ (Thm.C20.asciiEnc_of_variant _ (by decide))
+
+theorem eref_pass (v : Gen.Variant) : ∀ (pre rest : List Nat), (∀ c ∈ pre, passPred v c = true) →
+    eref (efamOfVariant v) (efamOfVariant v).init (pre ++ rest)
+      = pre.map EEv.byte ++ eref (efamOfVariant v) (efamOfVariant v).init rest
+  | [], rest, _ => rfl
+  | c :: t, rest, h => by
+    have hstep := enc_pass v c (h c (List.mem_cons_self ..))
+    have hpc : processChar (efamOfVariant v) ((efamOfVariant v).rank (efamOfVariant v).init c + 1)
+        (efamOfVariant v).init c .unlimited [] = .done (efamOfVariant v).init [c] .unlimited := by
+      simp [processChar, Budget.isZero, hstep, Budget.dec]
+    rw [List.cons_append, eref_cons, hpc]
+    simp only [charEvs, charSt, List.map_cons, List.map_nil, List.cons_append, List.nil_append]
+    rw [eref_pass v t rest (fun x hx => h x (List.mem_cons_of_mem _ hx))]
+
+theorem init_eof_nil (v : Gen.Variant) : ((efamOfVariant v).eof (efamOfVariant v).init).1 = [] := by
+  cases v <;> rfl
+
+open EncodingRs.Thm.C19 in
+/-- `Utf8Source` reads an ASCII prefix byte by byte -/
+theorem chars_ascii_prefix (P : Nat → Bool) (hP : ∀ b, P b = true → b < 0x80) : ∀ (bytes : List Nat),
+    chars false bytes = bytes.take (upTo P bytes) ++ chars false (bytes.drop (upTo P bytes))
+  | [] => by simp [upTo]
+  | b :: r => by
+    simp only [upTo]
+    by_cases hb : P b = true
+    · have hlt := hP b hb
+      simp only [hb, if_true, List.take_succ_cons, List.drop_succ_cons, List.cons_append]
+      rw [← chars_ascii_prefix P hP r]
+      simp [chars, itemsFn, items8, itemsOf, read8, hlt]
+    · simp [hb]
+
+open EncodingRs.Thm.C19 in
+theorem validUpToNoRepl_upTo (v : Gen.Variant) (bytes : List Nat) :
+    validUpToNoRepl v bytes = upTo (passPred v) bytes := by
+  unfold validUpToNoRepl
+  by_cases hi : v = .iso2022Jp
+  · simp only [hi, if_true]
+    rw [iso2022JpAsciiValidUpTo_eq]
+    congr 1
+  · simp only [hi, if_false]
+    rw [asciiValidUpTo_eq]
+    congr 1
+    funext b
+    simp [passPred, hi]
+
+/-- the UTF-8 encoder writes the UTF-8 form: for UTF-8 output the borrowed input is the reference -/
+theorem utf8_eref (text : List Nat) :
+    htmlE (eref utf8EFam utf8EFam.init text) = Spec.Conv.utf8EncodeAll text ∧
+      anyUnmap (eref utf8EFam utf8EFam.init text) = false := by
+  induction text with
+  | nil => exact ⟨rfl, rfl⟩
+  | cons c t ih =>
+    have hpc : processChar utf8EFam (utf8EFam.rank utf8EFam.init c + 1) utf8EFam.init c .unlimited []
+        = .done utf8EFam.init (Spec.Conv.utf8Encode c) .unlimited := by
+      simp only [processChar, Budget.isZero, Bool.false_eq_true, if_false, List.nil_append, Budget.dec]
+      rfl
+    rw [eref_cons, hpc]
+    simp only [charEvs, charSt]
+    rw [htmlE_append, htmlE_bytes, anyUnmap_append, anyUnmap_bytes, ih.1, ih.2]
+    exact ⟨rfl, rfl⟩
 
 end EncodingRs.Lemmas.OneShotEnc
